@@ -100,7 +100,7 @@ const (
 	OPut        = "put"
 	ODel        = "del"
 	OBatch      = "batch"
-	OGet        = "get"  // Get, compare, scribble (or hold), Get again N times
+	OGet        = "get" // Get, compare, scribble (or hold), Get again N times
 	OHas        = "has"
 	OScan       = "scan" // forward + backward iteration with stability checks
 	OSeek       = "seek" // fresh iterator, Seek(k) with poisoned key, a few steps
@@ -149,6 +149,7 @@ type Program struct {
 	Cfg  Cfg            `json:"cfg"`
 	Pool []dbh.HexBytes `json:"pool"`
 	Ops  []Op           `json:"ops"`
+	KOps []kop          `json:"kops,omitempty"` // a (K) program instead of Ops
 }
 
 func loadProgram(path string) (*Program, error) {
